@@ -29,9 +29,14 @@ func Verif_C05_tokeniser_total() {
 // verifWalk opens data in every error handling mode and touches everything
 // reachable through the cross-reference table; the implicit assertion is that
 // nothing panics and every call returns.
+//
+// Termination is checked with a read budget: the files are a few hundred
+// bytes long, every terminating run makes a few dozen ReadAt calls, and an
+// endless loop in the reader makes them without bound.
 func verifWalk(data []byte, maxObj int, scan bool) {
 	for mode := 0; mode < 3; mode++ {
-		r, err := NewReader(bytes.NewReader(data), int64(len(data)), &ReaderOptions{ErrorHandling: ReaderErrorHandling(mode)})
+		src := &verifBudgetReader{r: bytes.NewReader(data), left: 600}
+		r, err := NewReader(src, int64(len(data)), &ReaderOptions{ErrorHandling: ReaderErrorHandling(mode)})
 		if err != nil {
 			continue
 		}
@@ -53,7 +58,7 @@ func verifWalk(data []byte, maxObj int, scan bool) {
 	if !scan {
 		return // the sequential scan uses regular expressions: concrete bytes only
 	}
-	fi, err := SequentialScan(bytes.NewReader(data), int64(len(data)))
+	fi, err := SequentialScan(&verifBudgetReader{r: bytes.NewReader(data), left: 600}, int64(len(data)))
 	if err == nil {
 		if r, err := fi.MakeReader(nil); err == nil {
 			for n := 0; n <= maxObj; n++ {
@@ -61,6 +66,17 @@ func verifWalk(data []byte, maxObj int, scan bool) {
 			}
 		}
 	}
+}
+
+type verifBudgetReader struct {
+	r    *bytes.Reader
+	left int
+}
+
+func (b *verifBudgetReader) ReadAt(p []byte, off int64) (int, error) {
+	b.left--
+	verifrt.Assert(b.left >= 0, "the call terminates (read budget of 600 ReadAt calls)")
+	return b.r.ReadAt(p, off)
 }
 
 // verifSmallFile writes a fixed small document (concrete bytes).
@@ -118,15 +134,18 @@ func Verif_C05_xref_tampering() {
 		return def
 	}
 	var f bytes.Buffer
+	// bytes in front of the header: offsets in the file count from "%PDF"
+	junk := []string{"", "junk\n", "\x00\x01 17 bytes of it\n"}[verifrt.Choice("junk", 2+verifrt.Tier())]
+	f.WriteString(junk)
 	f.WriteString("%PDF-1.7\n")
-	o1 := f.Len()
+	o1 := f.Len() - len(junk)
 	f.WriteString("1 0 obj\n<</Type/Catalog/Pages 2 0 R>>\nendobj\n")
-	o2 := f.Len()
+	o2 := f.Len() - len(junk)
 	f.WriteString("2 0 obj\n<</Type/Pages/Kids[]/Count 0>>\nendobj\n")
-	o3 := f.Len()
+	o3 := f.Len() - len(junk)
 	members := "4 0 5 2 7 (s)"
 	fmt.Fprintf(&f, "3 0 obj\n<</Type/ObjStm/N %d/First %d/Length %d>>\nstream\n%s\nendstream\nendobj\n", val(0, 2), val(1, 8), val(2, int64(len(members))), members)
-	o6 := f.Len()
+	o6 := f.Len() - len(junk)
 	// entries: 0 free, 1,2,3 in use, 4,5 in object stream 3, 6 the xref stream
 	var body bytes.Buffer
 	ent := func(t, a, b int) {
